@@ -808,6 +808,15 @@ func (E *Ranger) eval1(ctx *callCtx, env *evalEnv, v ssa.Value, depth int) AV {
 		return fa
 	case *ssa.UnOp:
 		if x.Op.String() == "*" {
+			if g, ok := x.X.(*ssa.Global); ok {
+				// a package-level variable initialised once (a named constant): its initialiser,
+				// evaluated in the init function
+				ff := E.P.Facts(ctx.fn)
+				if iv := ff.GlobalInit(g); iv != nil && iv.Parent() != nil && len(E.stack) < 6 {
+					ictx := E.ctxFor(iv.Parent(), nil)
+					return E.eval(ictx, &evalEnv{id: 0, ref: map[ssa.Value]Itv{}, rel: map[ssa.Value]Dir{}}, iv, depth+1)
+				}
+			}
 			if fa, ok := x.X.(*ssa.FieldAddr); ok {
 				k := E.fieldKey(fa.X.Type(), fa.Field)
 				return E.fieldAV(k, x.Type())
